@@ -97,6 +97,10 @@ func newSWorld(cfg model.Config, seed []model.Write, watch ...string) *sworld {
 			sw.applied[col] = append(sw.applied[col], e)
 		})
 	}
+	// start from a non-initial state of the transaction pool: one transaction that
+	// failed and one that only read have been through it
+	sw.w.C.Query(func(txn *column.Txn) error { return fmt.Errorf("verif: warm-up transaction gives up") })
+	sw.w.C.Query(func(txn *column.Txn) error { txn.Count(); return nil })
 	// commits emitted while seeding are not part of the scenario
 	sw.w.Commits = nil
 	return sw
